@@ -96,6 +96,7 @@ type H1Msg struct {
 	Decl            string
 	Body            []byte
 	Class           string // ok | incomplete | malformed
+	Err             error  // the codec error when Class != ok
 	Request         *http.Request
 	Response        *http.Response
 }
@@ -115,12 +116,12 @@ func isChunked(te []string) bool { return len(te) > 0 && te[len(te)-1] == "chunk
 func ReadReq(br *bufio.Reader) *H1Msg {
 	req, err := http.ReadRequest(br)
 	if err != nil {
-		return &H1Msg{Class: H1Class(err)}
+		return &H1Msg{Class: H1Class(err), Err: err}
 	}
 	decl := keysOf(req.Trailer)
 	body, err := io.ReadAll(req.Body)
 	if err != nil {
-		return &H1Msg{Class: H1Class(err)}
+		return &H1Msg{Class: H1Class(err), Err: err}
 	}
 	return &H1Msg{Req: true, Method: req.Method, URI: req.RequestURI, Major: req.ProtoMajor, Minor: req.ProtoMinor,
 		Host: req.Host, Chunked: isChunked(req.TransferEncoding), CL: req.ContentLength, Close: req.Close,
@@ -131,12 +132,12 @@ func ReadReq(br *bufio.Reader) *H1Msg {
 func ReadRes(br *bufio.Reader, method string) *H1Msg {
 	res, err := http.ReadResponse(br, &http.Request{Method: method})
 	if err != nil {
-		return &H1Msg{Class: H1Class(err)}
+		return &H1Msg{Class: H1Class(err), Err: err}
 	}
 	decl := keysOf(res.Trailer)
 	body, err := io.ReadAll(res.Body)
 	if err != nil {
-		return &H1Msg{Class: H1Class(err)}
+		return &H1Msg{Class: H1Class(err), Err: err}
 	}
 	return &H1Msg{Major: res.ProtoMajor, Minor: res.ProtoMinor, Code: res.StatusCode, Status: res.Status,
 		Chunked: isChunked(res.TransferEncoding), CL: res.ContentLength, Close: res.Close,
